@@ -433,6 +433,9 @@ func (a *analysis) compute(v ssa.Value) kind {
 			}
 			ks[a.kAt(e, x.Block().Preds[i])]++
 		}
+		if a.isClampSlicePhi(x) {
+			return kExt
+		}
 		if len(ks) == 1 {
 			for k := range ks {
 				switch k {
@@ -598,6 +601,77 @@ func (a *analysis) isMinMaxPhi(p *ssa.Phi) bool {
 	// min: g chosen when g<c ; max: g chosen when g>c. Both are monotone in g.
 	_ = gLess
 	return true
+}
+
+// isClampSlicePhi: p is `v` when len(v) <= K and `v[:K]` when len(v) > K (K constant, v a growing input), i.e. the first
+// min(len(v), K) bytes of v. Whichever edges the shorter and the longer run arrive on, the longer run's value extends
+// the shorter run's: (v1, v2) and (v1[:K], v2[:K]) trivially, (v1, v2[:K]) because len(v1) <= K there, and (v1[:K], v2)
+// cannot happen (len(v2) >= len(v1) > K).
+func (a *analysis) isClampSlicePhi(p *ssa.Phi) bool {
+	if len(p.Edges) != 2 || !isByteSlice(p.Type()) {
+		return false
+	}
+	var whole ssa.Value
+	var cut *ssa.Slice
+	var cutPred *ssa.BasicBlock
+	for i, e := range p.Edges {
+		if sl, ok := e.(*ssa.Slice); ok && sl.High != nil && (sl.Low == nil || isZeroConst(sl.Low)) && sl.Max == nil {
+			cut, cutPred = sl, p.Block().Preds[i]
+		} else {
+			whole = e
+		}
+	}
+	if cut == nil || whole == nil || cut.X != whole || a.k(whole) != kExt {
+		return false
+	}
+	kc, ok := cut.High.(*ssa.Const)
+	if !ok || kc.Value == nil || kc.Value.Kind() != constant.Int {
+		return false
+	}
+	ctl := p.Block().Idom()
+	if ctl == nil || len(ctl.Instrs) == 0 {
+		return false
+	}
+	iff, ok := ctl.Instrs[len(ctl.Instrs)-1].(*ssa.If)
+	if !ok {
+		return false
+	}
+	b, ok := iff.Cond.(*ssa.BinOp)
+	if !ok {
+		return false
+	}
+	// the cut edge is the side on which len(whole) > K (or >= K) holds
+	cutSide := -1
+	for i, sc := range ctl.Succs {
+		if sc != p.Block() && (sc == cutPred || sc.Dominates(cutPred)) && len(sc.Preds) == 1 {
+			cutSide = i
+		}
+	}
+	if cutSide < 0 {
+		return false
+	}
+	isLenOfWhole := func(v ssa.Value) bool {
+		c, ok := v.(*ssa.Call)
+		return ok && isLenCall(c) && c.Call.Args[0] == whole
+	}
+	sameK := func(v ssa.Value) bool {
+		k2, ok := v.(*ssa.Const)
+		return ok && k2.Value != nil && k2.Value.Kind() == constant.Int && constant.Compare(k2.Value, token.EQL, kc.Value)
+	}
+	var longOnTrue bool
+	switch {
+	case isLenOfWhole(b.X) && sameK(b.Y) && (b.Op == token.GTR || b.Op == token.GEQ):
+		longOnTrue = true
+	case isLenOfWhole(b.X) && sameK(b.Y) && (b.Op == token.LSS || b.Op == token.LEQ):
+		longOnTrue = false
+	case sameK(b.X) && isLenOfWhole(b.Y) && (b.Op == token.LSS || b.Op == token.LEQ):
+		longOnTrue = true
+	case sameK(b.X) && isLenOfWhole(b.Y) && (b.Op == token.GTR || b.Op == token.GEQ):
+		longOnTrue = false
+	default:
+		return false
+	}
+	return (cutSide == 0) == longOnTrue
 }
 
 func (a *analysis) call(c *ssa.Call) kind {
@@ -1759,6 +1833,9 @@ func (a *analysis) phisTolerant(b *ssa.BasicBlock) bool {
 		}
 		switch a.k(ph) {
 		case kGrow, kU:
+		case kExt:
+			// a slice phi of a re-join block is tainted, hence TOP, unless all arriving edges carry the same value or it is
+			// the clamp form v / v[:K], for which every pairing of edges keeps "the longer run's value extends the shorter's"
 		default:
 			return false
 		}
